@@ -2,8 +2,15 @@ package vegeta
 
 import (
 	"bytes"
+	"errors"
 	"strings"
 )
+
+var errVerifNoFile = errors.New("model: open: no such file or directory")
+
+// verifC16Budget: slice elements a parser may allocate regardless of its input
+// (I/O buffers of 4..64 KiB); beyond it, 64 per input byte.
+const verifC16Budget = 1 << 18
 
 func verifASCII(name string, n int) []byte {
 	b := verif_nondet_bytes(name, n)
@@ -17,7 +24,9 @@ func verifASCII(name string, n int) []byte {
 // ASCII byte string of the stated length (the real library code underneath is
 // interpreted on the symbolic bytes); any run-time panic (index, slice, nil,
 // conversion) on any path is a violation, and every call returns within the
-// instruction budget.
+// instruction budget. Parsers that read from a stream also run under a memory
+// budget (a constant for I/O buffers plus 64 elements per input byte): what
+// make() allocates must stay proportional to the input.
 //
 //verif:harness param.L=0..4 thorough.param.L=0..6 unwind=48 thorough.deadline=7000
 func verif_harness_C16_buckets_bytes() {
@@ -29,6 +38,7 @@ func verif_harness_C16_buckets_bytes() {
 //verif:harness param.L=0..3 thorough.param.L=0..5 unwind=48 thorough.deadline=7000
 func verif_harness_C16_http_targeter_bytes() {
 	src := verifASCII("doc", verif_param("L"))
+	verif_alloc_limit(verifC16Budget + 64*len(src))
 	tr := NewHTTPTargeter(bytes.NewReader(src), nil, nil)
 	for k := 0; k < 3; k++ {
 		var t Target
@@ -43,6 +53,7 @@ func verif_harness_C16_http_targeter_bytes() {
 //verif:harness param.L=0..3 thorough.param.L=0..5 unwind=48 thorough.deadline=7000
 func verif_harness_C16_json_targeter_bytes() {
 	src := verifASCII("doc", verif_param("L"))
+	verif_alloc_limit(verifC16Budget + 64*len(src))
 	tr := NewJSONTargeter(bytes.NewReader(src), nil, nil)
 	for k := 0; k < 3; k++ {
 		var t Target
@@ -57,6 +68,7 @@ func verif_harness_C16_json_targeter_bytes() {
 //verif:harness param.L=0..3 thorough.param.L=0..5 unwind=48 thorough.deadline=7000
 func verif_harness_C16_json_decoder_bytes() {
 	src := verifASCII("doc", verif_param("L"))
+	verif_alloc_limit(verifC16Budget + 64*len(src))
 	dec := NewJSONDecoder(bytes.NewReader(src))
 	for k := 0; k < 3; k++ {
 		var r Result
@@ -91,5 +103,48 @@ func verif_harness_C16_csv_decoder_fields() {
 	var r Result
 	err := dec.Decode(&r)
 	verif_assert(n == 12 || err != nil, "C16.csv-wrong-field-count-rejected")
+	verif_reach("done")
+}
+
+// C16 — the http-format targeter on structured documents: 1..3 / 1..4 lines,
+// each chosen among well-formed and malformed kinds (request lines, headers
+// with a missing name or value, lines that are neither, comments, blanks, a
+// body reference to a missing file); the targeter is called four times and
+// keeps being called after it reported an error. Every call returns — an
+// error path that leaves the targeter unusable (a lock never released) is a
+// hang for the next caller — and none panics.
+//
+//verif:harness param.L=1..3 thorough.param.L=1..4 unwind=64
+func verif_harness_C16_http_targeter_lines() {
+	kinds := []string{
+		"GET http://a/",
+		"POST /p",
+		"X-H: 1",
+		"X-Empty:",
+		": novalue",
+		"neither",
+		"# comment",
+		"",
+		"@/nonexistent/verif-body",
+		"BREW http://a/",
+		"GET ://bad",
+	}
+	L := verif_param("L")
+	doc := ""
+	for k := 0; k < L; k++ {
+		doc += kinds[verif_choose("line", len(kinds))] + "\n"
+	}
+	if verif_is_symbolic_run() {
+		// the file system is not part of the input: the referenced file is missing
+		verif_stub("os.ReadFile", func(name string) ([]byte, error) { return nil, errVerifNoFile })
+	}
+	verif_alloc_limit(verifC16Budget + 64*len(doc))
+	tr := NewHTTPTargeter(strings.NewReader(doc), nil, nil)
+	for k := 0; k < 4; k++ {
+		var t Target
+		if err := tr(&t); err == nil {
+			verif_assert(t.Method != "" && t.URL != "", "C16.http-target-has-method-and-url")
+		}
+	}
 	verif_reach("done")
 }
